@@ -16,6 +16,7 @@ import CocaVerif.Drv.Cloc
 import CocaVerif.Drv.Api
 import CocaVerif.Drv.JavaFull
 import CocaVerif.Drv.Refactor
+import CocaVerif.Drv.Front
 open Lean
 
 partial def loop {σ : Type} (h : IO.FS.Stream) (out : IO.FS.Stream) (step : σ → Json → σ × Json) (st : σ) : IO Unit := do
@@ -48,5 +49,6 @@ def main (args : List String) : IO UInt32 := do
   | ["cloc"] => loop stdin stdout CocaVerif.Drv.Cloc.step (); return 0
   | ["api"] => loop stdin stdout CocaVerif.Drv.Api.step {}; return 0
   | ["javafull"] => loop stdin stdout CocaVerif.Drv.JavaFull.step {}; return 0
+  | ["front"] => loop stdin stdout CocaVerif.Drv.Front.step none; return 0
   | ["refactor"] => loop stdin stdout CocaVerif.Drv.Refactor.step (); return 0
   | _ => IO.eprintln "usage: driver <family>"; return 2
